@@ -442,7 +442,16 @@ func featC13(m *gen.Mixed, ts *gen.TieSetup, p *modelParams) {
 					if bal < 100 {
 						continue
 					}
-					s.Tx = append(s.Tx, forge.SignedBatch([]forge.Tx{forge.Conversion(k.FA(), fat2.PTickerUSD, 1e8+uint64(rng.Intn(1e6)), dst)}, m.W.EntryTime(hh)+int64(50+n), k))
+					txs := []forge.Tx{forge.Conversion(k.FA(), fat2.PTickerUSD, 1e8+uint64(rng.Intn(1e6)), dst)}
+					if n%3 == 2 {
+						// the destination under test is not the first transaction of its batch: every conversion of
+						// a batch is subject to the admission rules, and one refusal refuses the batch
+						txs = append([]forge.Tx{forge.Conversion(k.FA(), fat2.PTickerUSD, 2e7+uint64(rng.Intn(1e6)), fat2.PTickerEUR)}, txs...)
+						if n == 5 {
+							txs = append(txs, forge.Transfer(k.FA(), fat2.PTickerUSD, 1e6, ks[rng.Intn(len(ks))].FA()))
+						}
+					}
+					s.Tx = append(s.Tx, forge.SignedBatch(txs, m.W.EntryTime(hh)+int64(50+n), k))
 				}
 			})
 		}
@@ -614,6 +623,19 @@ func featC16(m *gen.Mixed, ts *gen.TieSetup, p *modelParams) {
 				if bal := v.Balances.Get(k.FA(), fat2.PTickerUSD); bal > 10 {
 					s.Tx = append(s.Tx, forge.SignedBatch([]forge.Tx{forge.Conversion(k.FA(), fat2.PTickerUSD, bal/2+1, fat2.PTickerPEG)}, m.W.EntryTime(h)+113, k))
 					s.Tx = append(s.Tx, forge.SignedBatch([]forge.Tx{forge.Transfer(k.FA(), fat2.PTickerUSD, bal/2+1, ks[rng.Intn(len(ks))].FA())}, m.W.EntryTime(h)+114, k))
+				}
+			}
+			// several PEG requests in ONE batch, with different amounts (each has its own yield and its own refund)
+			if rng.Intn(3) == 0 {
+				k := ks[rng.Intn(len(ks))]
+				if bal := v.Balances.Get(k.FA(), fat2.PTickerUSD); bal > 1000 {
+					a1 := 1 + uint64(rng.Int63n(int64(bal/8)))
+					a2 := 1 + uint64(rng.Int63n(int64(bal/3)))
+					txs := []forge.Tx{forge.Conversion(k.FA(), fat2.PTickerUSD, a1, fat2.PTickerPEG), forge.Conversion(k.FA(), fat2.PTickerUSD, a2, fat2.PTickerPEG)}
+					if rng.Intn(2) == 0 {
+						txs = append(txs, forge.Conversion(k.FA(), fat2.PTickerUSD, 1+a1/3, fat2.PTickerPEG))
+					}
+					s.Tx = append(s.Tx, forge.SignedBatch(txs, m.W.EntryTime(h)+119, k))
 				}
 			}
 			// dust next to a request far above the bank: the share rounds down to 0 PEG while the refund of
